@@ -206,16 +206,19 @@ func init() {
 		if !ok {
 			panic(unsupported("reflect.Type.MethodByName of a symbolic name"))
 		}
-		res := zeroResult(fn).(tuple)
+		rp := fr.i.prog.ImportedPackage("reflect")
+		if rp == nil || rp.Type("Method") == nil {
+			panic(unsupported("reflect.Method type not loaded"))
+		}
+		m := zero(rp.Type("Method").Type()).(structure)
 		ms := fr.i.prog.MethodSets.MethodSet(args[0].(rtype).t)
 		for i := 0; i < ms.Len(); i++ {
 			if obj := ms.At(i).Obj(); obj.Name() == name && obj.Exported() {
-				m := res[0].(structure)
 				m[0] = name
 				return tuple{m, true}, true
 			}
 		}
-		return tuple{res[0], false}, true
+		return tuple{m, false}, true
 	})
 	reg("(reflect.rtype).NumIn", func(fr *frame, args []value) value {
 		return args[0].(rtype).t.Underlying().(*types.Signature).Params().Len()
